@@ -214,7 +214,7 @@ def special_history(pid, profile, seed):
         how = r.choice(["sweep", "close", "release"])
         t2 = t + 16
         if how == "sweep":
-            t2 = t + 8 + (660 + r.choice([0, 1, 50])) * proto.TICKS
+            t2 = t + 8 + info()["expirationTicks"] + r.choice([0, 1, 50]) * proto.TICKS
             h.append({"op": "sweep", "now": t2, "fault": False})
         elif how == "close":
             h += [{"op": "connect", "c": c1 + 1},
